@@ -60,13 +60,16 @@ var formats = []string{
 }
 
 var wrapperText = map[string]string{
-	"gzip":    "gzip {\n\t\text *\n\t}",
-	"errors":  "errors {DIR}/errors.log",
-	"errpage": "errors {DIR}/errors.log {\n\t\t404 {DIR}/err404.html\n\t}",
-	"header":  "header / X-Wrap yes",
-	"limits":  "limits 1MB",
-	"status":  "status 410 /gone",
-	"redir":   "redir /moved /elsewhere 301",
+	"gzip":        "gzip {\n\t\text *\n\t}",
+	"errors":      "errors {DIR}/errors.log",
+	"errpage":     "errors {DIR}/errors.log {\n\t\t404 {DIR}/err404.html\n\t}",
+	"header":      "header / X-Wrap yes",
+	"limits":      "limits 1MB",
+	"status":      "status 410 /gone",
+	"redir":       "redir /moved /elsewhere 301",
+	"rewrite-in":  "rewrite /p/x /api/v1/rewritten",
+	"rewrite-out": "rewrite /api/v1/y /other/rewritten",
+	"ext":         "ext .html",
 }
 
 func workdir(n int64) string {
@@ -333,13 +336,19 @@ func genCase(t *rapid.T) *Case {
 	}
 	sort.Strings(wn)
 	picked := rapid.SliceOfNDistinct(rapid.SampledFrom(wn), 0, 4, func(s string) string { return s }).Draw(t, "wrappers")
-	hasErr := false
+	hasErr, hasRw := false, false
 	for _, w := range picked {
 		if w == "errors" || w == "errpage" {
 			if hasErr {
 				continue
 			}
 			hasErr = true
+		}
+		if strings.HasPrefix(w, "rewrite") {
+			if hasRw {
+				continue
+			}
+			hasRw = true
 		}
 		c.Wrappers = append(c.Wrappers, w)
 	}
